@@ -15,8 +15,8 @@ NCPU = os.cpu_count() or 4
 
 # runs of seeded search (plain build / sanitized build) and which single-fault spaces are enumerated completely
 BUDGET = {
-    ("C20", "quick"): dict(search=160000, san=4000, det=400, spaces=[], san_spaces=["stress"], memcheck=(1, 800)),
-    ("C20", "thorough"): dict(search=4000000, san=160000, det=5000, spaces=[], san_spaces=["stress"], memcheck=(1, 6000)),
+    ("C20", "quick"): dict(search=160000, san=4000, det=400, spaces=[], san_spaces=["stress"], memcheck=(1, 800), xbuild=True),
+    ("C20", "thorough"): dict(search=4000000, san=160000, det=5000, spaces=[], san_spaces=["stress"], memcheck=(1, 6000), xbuild=True),
     ("C03", "quick"): dict(search=80000, san=3000, det=400, spaces=["write"]),
     ("C03", "thorough"): dict(search=2000000, san=80000, det=5000, spaces=["write"], san_spaces=["write"]),
     ("C19", "quick"): dict(search=100000, san=5000, det=400, spaces=["trunc", "flip2", "alloc", "read", "stress"], san_spaces=["stress"]),
@@ -40,6 +40,7 @@ SPACE_DESC = {
     "read": "the k-th read of the input fails with EIO, for every k of the fault-free run, for every corpus file",
     "stress": "every (family, size knob) pair of the stress family once, fault-free, including the largest knobs (10^5-byte tokens, 196 417 case labels in worst-case AVL order, 4097 names per scope) and the operator/type matrix (59 forms x 30 x 30 operand type categories; one sixth of it per quick run, all of it in the thorough tier)",
     "memcheck": "every corpus and feature file in its own mode and with -E (or another target), every preprocessed source of cproc itself and the smallest member of every stress family, each once under valgrind's memcheck with the simulated allocator's blocks marked undefined and every output byte and the exit status checked for definedness",
+    "xbuild": "every corpus and feature file in its own mode and with -E (or another target), every preprocessed source of cproc itself and the smallest member of every stress family, under the null plan, once in the gcc-built and once in the clang-built (ASan+UBSan) worker: status and output bytes must be the same (C20: reference-built vs otherwise-built binary)",
     "write": "the k-th write to the output fails (ENOSPC), for every k of the fault-free run under 4 buffer modes, transient and persistent, accepting 0 / 1 / all-but-one bytes, for every corpus file",
 }
 
@@ -100,10 +101,24 @@ def replay(prop, path):
         return 2
     san = j.get("build") == "sanitized"
     exe = build_b.build_simB(san)
+    lp = build_b.comma_locale()
+    if lp:
+        os.environ["SIMB_LOCPATH"] = lp
     work = tempfile.mkdtemp(prefix="simB-replay-", dir=build.BUILD)
     try:
         ks, _ = known_sig_file(prop, work)
         pre = []
+        if j.get("class") == "C20/output-depends-on-build":
+            exe_san = build_b.build_simB(True)
+            outs = []
+            for ex in (exe, exe_san):
+                r = subprocess.run([ex, "outcome", path, "--repo", build.REPO, "--features", FEATURES, "--own", own_sources()], stdout=subprocess.PIPE, text=True)
+                outs.append(r.stdout.strip())
+            print("replay: gcc-built worker: %s\n        clang-built worker: %s" % (outs[0], outs[1]))
+            if outs[0] != outs[1] and outs[0].startswith("exit") and outs[1].startswith("exit"):
+                print("VIOLATION property=C20 replay=%s" % path)
+                return 1
+            return 0
         if j.get("build") == "memcheck":
             pre = memcheck_prefix(work)
             if pre is None:
@@ -120,6 +135,9 @@ def run(prop, tier):
     seed = vc.seed()
     b = BUDGET[(prop, tier)]
     exe = build_b.build_simB(False)
+    lp = build_b.comma_locale()
+    if lp:
+        os.environ["SIMB_LOCPATH"] = lp  # every worker, and every replay a worker starts, inherits it
     try:
         exe_san = build_b.build_simB(True)
     except build.HarnessError as e:
@@ -180,6 +198,11 @@ def run(prop, tier):
         add("search", exe, ["--hashes", "@OUT@.idx", "--hashes-below", str(det)], b["search"], nplain, seed)
         if exe_san:
             add("san", exe_san, [], b["san"], nsan, seed + 104729)
+        if b.get("xbuild") and exe_san:
+            out = subprocess.run([exe, "space", "--name", "xbuild", "--repo", build.REPO, "--features", FEATURES, "--own", own_sources()], stdout=subprocess.PIPE, text=True).stdout
+            spaces["xbuild"] = json.loads(out)["total"]
+            add("xbuild-plain", exe, ["--space", "xbuild", "--sinks", "@OUT@.sinks"], spaces["xbuild"], max(2, NCPU // 2), seed)
+            add("xbuild-san", exe_san, ["--space", "xbuild", "--sinks", "@OUT@.sinks"], spaces["xbuild"], max(2, NCPU // 2), seed)
         # C20's last clause under memcheck: the same worker, started under valgrind
         vg = memcheck_prefix(work) if b.get("memcheck") else None
         if b.get("memcheck") and not vg:
@@ -247,6 +270,48 @@ def run(prop, tier):
             print("HARNESS-ERROR determinism gate compared only %d of %d runs" % (compared, det))
             rc = 2
 
+        # cross-build comparison (C20): same status and same output bytes from the gcc-built and the clang-built worker
+        xb = None
+        if "xbuild" in spaces:
+            def load_sinks(kind):
+                m = {}
+                for (k, o, c) in jobs:
+                    if k == kind and os.path.exists(o + ".sinks"):
+                        for ln in open(o + ".sinks"):
+                            f = ln.split()
+                            m[int(f[0])] = tuple(f[1:])
+                return m
+            sa, sb = load_sinks("xbuild-plain"), load_sinks("xbuild-san")
+            both = [i for i in sa if i in sb and sa[i][0] == "exit" and sb[i][0] == "exit"]
+            diff = [i for i in both if sa[i] != sb[i]]
+            xb = {"compared": len(both), "different": 0, "builds": ["gcc -O1", "clang -O1 -fsanitize=address,undefined"]}
+            for i in sorted(diff)[:3]:
+                pj = subprocess.run([exe, "plan", "--space", "xbuild", "--index", str(i), "--seed", str(seed), "--prop", "C20"] + common[:8], stdout=subprocess.PIPE, text=True).stdout
+                try:
+                    plan = json.loads(pj)
+                except Exception:
+                    print("HARNESS-ERROR cannot obtain the plan of xbuild index %d" % i)
+                    rc = 2
+                    continue
+                rp = os.path.join(vc.REPLAYS, "C20-xbuild-%d.json" % i)
+                vc.atomic_write(rp, json.dumps({"property": "C20", "class": "C20/output-depends-on-build", "signature": "output-depends-on-build", "build": "both",
+                                                "detail": "gcc-built worker: %s; clang-built worker: %s" % (" ".join(sa[i]), " ".join(sb[i])), "plan": plan}, indent=1) + "\n")
+                # gate: a fresh pair of processes must disagree again
+                outs = []
+                for ex in (exe, exe_san):
+                    r = subprocess.run([ex, "outcome", rp] + common[:8], stdout=subprocess.PIPE, text=True)
+                    outs.append(r.stdout.strip())
+                if outs[0] == outs[1]:
+                    print("HARNESS-ERROR cross-build difference at index %d did not reproduce in fresh processes" % i)
+                    rc = 2
+                    continue
+                xb["different"] += 1
+                violations += 1
+                rc = max(rc, 1)
+                print("VIOLATION property=C20 replay=%s\n  class: C20/output-depends-on-build\n  signature: output-depends-on-build\n  detail: the same input and options give different status/output from two builds of the same source (gcc: %s; clang: %s)\n  input: %s" % (rp, outs[0], outs[1], plan["files"][0].get("source", plan["files"][0]["name"])))
+            if len(diff) > 3:
+                xb["different"] = len(diff)
+
         # merge statistics
         tot = {}
         maps = {k: {} for k in ("configured", "fired", "outcomes", "verdicts", "known", "sites", "axes", "workloads", "unreproducible_sanitized")}
@@ -279,6 +344,8 @@ def run(prop, tier):
         exhaustive_sub = {}
         for sp in b.get("spaces", []):
             exhaustive_sub[sp] = {"size": spaces[sp], "runs": per_kind.get("space-" + sp, 0), "complete": per_kind.get("space-" + sp, 0) >= spaces[sp], "what": SPACE_DESC[sp], "build": "plain"}
+        if "xbuild" in spaces:
+            exhaustive_sub["xbuild"] = {"size": spaces["xbuild"], "runs": per_kind.get("xbuild-plain", 0) + per_kind.get("xbuild-san", 0), "complete": per_kind.get("xbuild-plain", 0) >= spaces["xbuild"] and per_kind.get("xbuild-san", 0) >= spaces["xbuild"], "what": SPACE_DESC["xbuild"], "build": "plain and ASan+UBSan"}
         if "memcheck" in spaces:
             step = b["memcheck"][0]
             exhaustive_sub["memcheck"] = {"size": spaces["memcheck"], "runs": per_kind.get("memcheck-space", 0), "complete": step == 1 and per_kind.get("memcheck-space", 0) >= spaces["memcheck"], "what": SPACE_DESC["memcheck"], "build": "plain, under valgrind memcheck"}
@@ -313,6 +380,7 @@ def run(prop, tier):
             "memcheck": {"runs_under_valgrind_memcheck": per_kind.get("memcheck-space", 0) + per_kind.get("memcheck-search", 0),
                          "oracle": "blocks handed out by the simulated malloc/realloc are marked undefined, every byte reaching the simulated output descriptors and the exit status are checked for definedness, and any memcheck error (branch or address depending on an undefined value) inside the run is a C20/uninitialised-memory violation; these workers decide nothing else",
                          "violations": sum(v for k, v in maps["verdicts"].items() if k.startswith("C20/uninitialised-memory"))} if "memcheck" in spaces else None,
+            "cross_build_comparison": xb,
             "determinism_gate": {"runs_compared": compared, "mismatches": len(mism), "worker_counts": [nplain, 3]},
             "components": {"real": ["attr.c decl.c eval.c expr.c init.c main.c map.c pp.c scan.c scope.c stmt.c targ.c token.c tree.c type.c utf.c util.c qbe.c", "glibc stdio buffering"],
                            "stub": ["malloc/realloc/free (seeded arena allocator with canaries, or ASan's allocator in the sanitized build)", "fopen/freopen/stdin/stdout/stderr (fopencookie streams)", "exit/abort/__assert_fail", "getenv/time/rand/getpid/setlocale tripwires"]},
